@@ -48,12 +48,17 @@ def handleL4 (req ans : String) : Verdict :=
         if r.syntaxUnpredicted then
           fieldOf ans "exit" == toString r.exit && fieldOf ans "trace" == "-" &&
             (realOut.startsWith ((r.stdout.splitOn "\n").headD "") || realOut.startsWith "Syntax Error")
+        else if r.tailUnpredicted then
+          fieldOf ans "exit" == toString r.exit && realOut.startsWith r.stdout && fieldOf ans "trace" == fieldOf model "trace"
+            && fieldOf ans "regs" == fieldOf model "regs" && fieldOf ans "mem" == fieldOf model "mem"
         else ans == model
       -- property-level verdicts that need no model: an accepted program never reaches an internal error,
       -- the emulator never aborts or hangs
       let exitS := fieldOf ans "exit"
       let specOk := exitS != "101" && exitS != "signal" && exitS != "timeout" && exitS != "134"
-        && (realOut.splitOn "Internal Error").length == 1
+        && ((realOut.splitOn "Internal Error").length == 1
+            -- RET with an empty call stack is a reported run-time error (dynamic, not a static inconsistency)
+            || (realOut.splitOn "ret is encountered without corresponding call").length == 2)
       { model := if ok then ans else model, specOk := specOk,
         spec := "exit status 0/1, no 'Internal Error' in the output", nontrivial := !r.diag && r.trace.length > 1 }
     | _, _, _ => bad
